@@ -291,38 +291,41 @@ class OpaqueHyper:
 
         ring.set_ofun_rule(name, rule)
 
-    def _args(self, F):
-        return [F[i, j, 0, 0] for i in range(self.dim) for j in range(self.dim)]
+    def _args(self, F, t):
+        return [F[(i, j) + t] for i in range(self.dim) for j in range(self.dim)]
 
     def function(self, x):
         F = x[0]
         W = np.empty(F.shape[2:], dtype=object)
-        W[...] = ring.ofun(self.name + "|", self._args(F))
+        for t in np.ndindex(*F.shape[2:]):
+            W[t] = ring.ofun(self.name + "|", self._args(F, t))
         self.calls.append(("function", x))
         return [W]
 
     def gradient(self, x, out=None):
         F = x[0]
-        a = self._args(F)
         P_ = np.empty(F.shape, dtype=object)
         n = self.dim
-        for i in range(n):
-            for j in range(n):
-                P_[i, j] = ring.ofun("%s|%d" % (self.name, i * n + j), a)
+        for t in np.ndindex(*F.shape[2:]):
+            a = self._args(F, t)
+            for i in range(n):
+                for j in range(n):
+                    P_[(i, j) + t] = ring.ofun("%s|%d" % (self.name, i * n + j), a)
         self.calls.append(("gradient", x))
         return [P_, x[-1]]
 
     def hessian(self, x, out=None):
         F = x[0]
-        a = self._args(F)
         n = self.dim
         A_ = np.empty((n, n, n, n) + F.shape[2:], dtype=object)
-        for i in range(n):
-            for j in range(n):
-                for k in range(n):
-                    for l in range(n):
-                        p, q = sorted((i * n + j, k * n + l))
-                        A_[i, j, k, l] = ring.ofun("%s|%d,%d" % (self.name, p, q), a)
+        for t in np.ndindex(*F.shape[2:]):
+            a = self._args(F, t)
+            for i in range(n):
+                for j in range(n):
+                    for k in range(n):
+                        for l in range(n):
+                            p, q = sorted((i * n + j, k * n + l))
+                            A_[(i, j, k, l) + t] = ring.ofun("%s|%d,%d" % (self.name, p, q), a)
         self.calls.append(("hessian", x))
         return [A_]
 
